@@ -362,7 +362,7 @@ impl Check for C05 {
             allow_empty: true,
             allow_arith_args: false,
             allow_distinct: false,
-            big_tables: false,
+            big_tables: 0,
             exact_floats: true,
         };
         let mut tables = Vec::new();
